@@ -214,6 +214,8 @@ fn percent_decode_lossless(t: &[u8]) -> Vec<u8> {
     if std::str::from_utf8(&out).is_ok() { out } else { t.to_vec() }
 }
 
+static PREPARE_CONSULTED: std::sync::atomic::AtomicUsize = std::sync::atomic::AtomicUsize::new(0);
+
 pub struct Read {
     rt: tokio::runtime::Runtime,
     hosts: Vec<Host>,
@@ -225,7 +227,16 @@ impl Read {
         let mut hosts = Vec::new();
         // 0: default extensions, default public dir, caches on; 1: Extensions::empty(); 2: custom public dir; 3: file cache off
         for i in 0..4 {
-            let ext = if i == 1 { Extensions::empty() } else { Extensions::new() };
+            let mut ext = if i == 1 { Extensions::empty() } else { Extensions::new() };
+            // a Prepare extension that never applies; evaluating its predicate shows that Prepare extensions were consulted
+            ext.add_prepare_fn(
+                Box::new(|_req, _host| {
+                    PREPARE_CONSULTED.fetch_add(1, std::sync::atomic::Ordering::SeqCst);
+                    false
+                }),
+                prepare!(_r, _h, _p, _a, { FatResponse::no_cache(Response::new(Bytes::new())) }),
+                extensions::Id::new(-1000, "never applies"),
+            );
             let mut opts = host::Options::default();
             if i == 2 {
                 opts.set_public_data_dir("pubcustom");
@@ -290,11 +301,16 @@ impl Group for Read {
         }
         let mut req = b.body(kvarn::application::Body::Bytes(Bytes::new().into())).unwrap();
         let addr: SocketAddr = "10.0.0.7:1234".parse().unwrap();
+        let consulted_before = PREPARE_CONSULTED.load(std::sync::atomic::Ordering::SeqCst);
         let reply = self.rt.block_on(kvarn::handle_cache(&mut req, addr, &self.hosts[h]));
+        let consulted = PREPARE_CONSULTED.load(std::sync::atomic::Ordering::SeqCst) - consulted_before;
         let body = String::from_utf8_lossy(&reply.identity_body).into_owned();
         let id = FILES.iter().map(|f| f.1).find(|m| body.contains(m)).unwrap_or("-");
         // the final status is decided in SendKind::send for sanitize errors: reproduce that mapping
         let status = match &reply.sanitize_data { Err(_) => 400, Ok(_) => reply.response.status().as_u16() };
+        if reply.sanitize_data.is_err() && consulted > 0 {
+            return format!("{status} {id} PREPARE-CONSULTED");
+        }
         format!("{status} {id}")
     }
     fn inconclusive(&self, out: &str) -> bool {
@@ -311,6 +327,9 @@ impl Group for Read {
             if unsafe_path && !out.starts_with("400") && out != "not-a-uri" {
                 return Some((format!("unsafe-served:{line}"), format!("an unsafe target was not answered 400: {out}")));
             }
+        }
+        if out.contains("PREPARE-CONSULTED") {
+            return Some((format!("prepare:{line}"), format!("a Prepare extension was consulted for a target that is rejected: {out}")));
         }
         if out.contains("SENTINEL") {
             return Some((format!("escape:{line}"), format!("content of a file outside the public directory was returned: {out}")));
